@@ -470,6 +470,25 @@ def audit_discharge(ctx, repo):
     calls = [c for c in calls_in(f.node) if call_name(c) == "populateCOLRv0"]
     ok = len(calls) == 1 and any(k.arg == "glyphMap" and "getReverseGlyphMap" in norm(k.value) for k in calls[0].keywords)
     ctx.ob("F12d", f.where, "populateCOLRv0(..., glyphMap=ttFont.getReverseGlyphMap(...))", ok, "" if ok else "COLR v0 records are emitted in ColorLayers dict order, which the subsetter fills from a set")
+    # ... and every other caller of populateCOLRv0 must ask for the sort too (it only sorts when given a glyphMap)
+    for rel in sorted(repo.rels()):
+        if rel.startswith(("subset/", "ttLib/", "colorLib/", "varLib/", "merge/", "fontBuilder")):
+            md = repo.mod(rel)
+            for q, fx in sorted(md.funcs.items()):
+                if fx.node.name == "populateCOLRv0":
+                    continue
+                for c in calls_in(fx.node, nested=False):
+                    if call_name(c) and call_name(c).endswith("populateCOLRv0"):
+                        has = any(k.arg == "glyphMap" for k in c.keywords) or len(c.args) >= 3
+                        ctx.ob("F12d", fx.where, f"{norm(c)[:60]}... passes glyphMap", has, "" if has else "populateCOLRv0 keeps the dict's order when no glyphMap is given; the caller's dict is built in set order")
+    # a dict built in set order must not feed an insertion-order-sensitive reducer (Counter.most_common breaks ties by first insertion)
+    sm = repo.mod("subset/__init__.py")
+    for q, fx in sorted(sm.funcs.items()):
+        mc = [c for c in calls_in(fx.node, nested=False) if last_attr(c) == "most_common"]
+        if not mc:
+            continue
+        unsorted = [n for n in ast.walk(fx.node) if isinstance(n, ast.comprehension) and norm(n.iter) in ("s.glyphs", "s.glyphs_retained", "s.glyphs_requested")]
+        ctx.ob("F12d", fx.where, "most_common() over a per-glyph dict: the dict is built in sorted glyph order", not unsorted, "" if not unsorted else f"dict built by iterating the set {norm(unsorted[0].iter)}: a tie is broken by hash order")
     pb = repo.mod("colorLib/builder.py").func("populateCOLRv0")
     srt = [n for n in ast.walk(pb.node) if isinstance(n, ast.Call) and call_name(n) == "sorted" and "colorGlyphsV0.items()" in norm(n) and "glyphMap" in norm(n)]
     ok = bool(srt) and any(norm(t) == "glyphMap is not None" for t, pol in guard_conditions(srt[0]) if pol)
